@@ -109,6 +109,10 @@ def scenarios(tier, seed):
                             out.append(dict(family=f"map/ve-mn-virtual/{mname}", kind="mn", budget_s=45, nodes=nodes, scopes=scopes, card=card, q=list(q), ev=ev2,
                                             engine="ve", order=[None, "explicit"][k % 2], states=C.STATE_STYLES[k % len(C.STATE_STYLES)],
                                             hashseed=k % 2, virt=vcand[0], cost=1000))
+                            if mname in ("mchain3", "mpair_unary") and not ev2:
+                                # the same through belief propagation (the soft evidence is honoured by both engines)
+                                out.append(dict(family=f"map/bp-mn-virtual/{mname}", kind="mn", budget_s=45, nodes=nodes, scopes=scopes, card=card, q=list(q), ev=ev2,
+                                                engine="bp", order=None, states=C.STATE_STYLES[k % len(C.STATE_STYLES)], hashseed=k % 2, virt=vcand[0], cost=1000))
     return out
 
 
